@@ -1629,6 +1629,11 @@ class Frame(object):
             it = self.expr(st.iter)
         finally:
             I.lazy_gen_node = None
+        hook = I.hooks.get("iterate")
+        if hook is not None and isinstance(it, AStruct):
+            r_ = hook(self, it, st.iter)  # a library object a kernel knows how to walk (an open archive, a listing)
+            if r_ is not NotImplemented:
+                it = r_
         if isinstance(it, AGenCall):
             broke = []
 
@@ -1672,13 +1677,14 @@ class Frame(object):
                 return
             it._consumed = True
         if isinstance(it, AList) and it.generic:
+            # a view of an input collection (or what a generator yielded once per element of one) walked element by
+            # element: a dict the body fills holds, after an unknown number of earlier rounds, unknown entries
+            used = {n.id for b in st.body for n in ast.walk(b) if isinstance(n, ast.Name)}
+            for nm, v in list(self.env.items()):
+                if isinstance(v, dict) and not v and nm in used:
+                    self.env[nm] = AMap("map:" + nm, make_value=I.hooks.get("map_value"))
+                    self._rebind_methods(v, self.env[nm])
             if getattr(it, "source", None):
-                # a view of an input collection walked element by element: like the collection itself
-                used = {n.id for b in st.body for n in ast.walk(b) if isinstance(n, ast.Name)}
-                for nm, v in list(self.env.items()):
-                    if isinstance(v, dict) and not v and nm in used:
-                        self.env[nm] = AMap("map:" + nm, make_value=I.hooks.get("map_value"))
-                        self._rebind_methods(v, self.env[nm])
                 I.path.effects.append(("loop", it.source, it.items[0] if it.items else None))
             else:
                 I.path.effects.append(("loop", "generic-list", it))
@@ -1750,6 +1756,7 @@ class Frame(object):
             elem = it.make_elem()
             I.path.effects.append(("loop", it.name, elem))
             self.assign(st.target, elem)
+            counters = {nm: v for nm, v in self.env.items() if isinstance(v, (int, Aff)) and not isinstance(v, bool)}
             I.loop_depth += 1
             try:
                 self.block(st.body)
@@ -1763,6 +1770,7 @@ class Frame(object):
                 I.loop_depth -= 1
                 raise
             I.loop_depth -= 1
+            self._scale_counters(st, counters, it.name)
             if st is I.step_loop:
                 raise StepDone(dict(self.env))
             # the loop ran to its end: what the target names now is the last element, which the representative of
@@ -1823,6 +1831,25 @@ class Frame(object):
             except LoopBreak:
                 return
         self.block(st.orelse)
+
+    def _scale_counters(self, st: ast.For, before: Dict[str, object], coll: str):
+        """count = 0; for _ in xs: count += 1 -- the one generic round stands for every element: a number the body moved
+        by a constant moved by that constant once per element (per element passing the test, when the increment sits
+        under a condition)"""
+        I = self.I
+        for nm, old in before.items():
+            new = self.env.get(nm)
+            if not isinstance(new, (int, Aff)) or isinstance(new, bool):
+                continue
+            d = Aff.of(new) - Aff.of(old)
+            if not d.is_const or d.c == 0:
+                continue
+            top = [s for s in st.body if isinstance(s, ast.AugAssign) and isinstance(s.target, ast.Name) and s.target.id == nm]
+            anywhere = [s for s in ast.walk(st) if isinstance(s, (ast.AugAssign, ast.Assign)) and any(
+                isinstance(x, ast.Name) and x.id == nm for t in (s.targets if isinstance(s, ast.Assign) else [s.target]) for x in ast.walk(t))]
+            sym = Aff.sym(("count(%s)" if len(top) == len(anywhere) else "count-filtered(%s)") % coll)
+            I.path.cons.add(sym)
+            self.env[nm] = Aff.of(old) + sym.scale(d.c)
 
     def _rebind_methods(self, old, new):
         """bound methods of a dict taken before it became a symbolic map follow it"""
@@ -1948,6 +1975,10 @@ class Frame(object):
                 return False
             b = getattr(builtins, str(exc.cls), None)
             if not isinstance(b, type):
+                b = _lib_class(str(exc.cls))  # an exception of a library the code base uses (fs.errors.FileExpected)
+            if not isinstance(target, type):
+                target = _lib_class(tv.dotted)
+            if not isinstance(b, type):
                 # an exception class the model does not know: it is some Exception
                 return target in (Exception, BaseException)
             return isinstance(target, type) and issubclass(b, target)
@@ -1980,6 +2011,17 @@ class Frame(object):
         return out
 
     def e_Tuple(self, e):
+        gen = [i for i, x in enumerate(e.elts) if isinstance(x, ast.Starred)]
+        if len(gen) == 1:
+            v = self.expr(e.elts[gen[0]].value)
+            if isinstance(v, AList) and v.generic and not e.elts[gen[0] + 1:]:
+                # (once, *generic): kept as the sequence it is (such tuples are joined / iterated, never indexed from the end)
+                head = self._elts(e.elts[:gen[0]])
+                out = AList(head + list(v.items), self.I.loop_depth, origin="T%d" % e.lineno)
+                out.generic, out.min_len, out.generic_from = True, v.min_len, len(head) + v.generic_from
+                if getattr(v, "_one_shot", None):
+                    v._consumed = True
+                return out
         return tuple(self._elts(e.elts))
 
     def e_List(self, e):
@@ -2021,6 +2063,9 @@ class Frame(object):
                 fmt += str(v.value).replace("{", "{{").replace("}", "}}")
         if all(isinstance(a, (str, int)) and not isinstance(a, bool) for a in args):
             return fmt.format(*args)
+        if len(args) == 1 and isinstance(args[0], AJoin) and fmt.endswith("{}") and "{" not in fmt[:-2] and "}" not in fmt[:-2]:
+            # f"prefix{''.join(items)}" is "prefix" + "".join(items)
+            return self.concat(fmt[:-2], args[0], e) if fmt[:-2] else args[0]
         if any(isinstance(a, Aff) for a in args):
             return AFormat(fmt, list(args), {})
         return Term("format", Term(repr(fmt)), *[_t(a) for a in args])
@@ -2067,7 +2112,16 @@ class Frame(object):
                 return Aff.sym("MAXSIZE")
             return LibRef(base.dotted + "." + a)
         if isinstance(base, AObj):
-            return I.get_attr_of_obj(base, a, node)
+            try:
+                return I.get_attr_of_obj(base, a, node)
+            except NoSuchAttr:
+                # not defined by the code base: what a library base class of the object provides, when a kernel says so
+                hook = I.hooks.get("getattr")
+                if hook is not None:
+                    r = hook(self, base, a, node)
+                    if r is not NotImplemented:
+                        return r
+                raise
         if isinstance(base, SuperProxy):
             if isinstance(base.obj, AObj):
                 owner, raw = I.p.class_attr_def(base.obj.cls, a, after=base.after)
@@ -2229,6 +2283,14 @@ class Frame(object):
                 return Term("first", Term(repr(base)))
             self.unsupported(node, "index into mapped list")
         if isinstance(base, Term):
+            if isinstance(idx, (str, int)):
+                # what this path itself stored under that key of the opaque mapping a moment ago (ants["comment"] = [...];
+                # ants["comment"].extend(...)): the object stored, unless the mapping was changed wholesale since
+                for eff in reversed(I.path.effects):
+                    if eff[0] == "mutate" and isinstance(eff[1], Term) and eff[1] == base and eff[2] in ("update", "clear", "pop", "__ior__", "popitem"):
+                        break
+                    if eff[0] == "setitem" and isinstance(eff[1], Term) and eff[1] == base and eff[2] == idx:
+                        return eff[3]
             return Term("getitem", base, idx if isinstance(idx, Term) else Term(repr(idx)))
         if isinstance(base, AStruct) and base.kind == "qualifiers":
             k = _hashable(idx)
@@ -2237,6 +2299,9 @@ class Frame(object):
             raise RaiseSig(AExc("KeyError", [idx], {}))
         if isinstance(base, LibRef):
             return base  # typing.Generic[...]
+        if isinstance(base, (AReMatch, AStruct)) and (isinstance(base, AReMatch) or base.kind in ("cit-match", "re-match-const")):
+            # match[g] is match.group(g)
+            return self.call_value(self.getattr(base, "group", node), [idx], {}, node)
         if isinstance(base, AObj) and isinstance(base.cls, ClassInfo) and not any(isinstance(c, Ext) and c.dotted != "builtins.object" for c in I.p.mro(base.cls)):
             # an object of a class of the code base (no library base that might bring it): obj[k] is its __getitem__
             owner, raw = I.p.class_attr_def(base.cls, "__getitem__")
@@ -2471,6 +2536,28 @@ class Frame(object):
 
     def e_DictComp(self, e):
         I = self.I
+        if len(e.generators) == 2 and isinstance(e.generators[1].iter, (ast.List, ast.Tuple)) and len(e.generators[1].iter.elts) == 1 \
+                and not e.generators[1].ifs and isinstance(e.generators[1].target, ast.Name) and not e.generators[0].ifs:
+            # {k: v for x in xs for v in [f(x)]}: the second clause only names a value computed from x -- the same table as
+            # the one filled by a loop over xs
+            g0, g1 = e.generators
+            it0 = self.expr(g0.iter)
+            elems = list(it0.items) if isinstance(it0, AList) else [it0.make_elem()] if isinstance(it0, ACollection) else None
+            if elems is not None and len(elems) == 1:
+                sub = Frame(I, self.fi, dict(self.env), module=self.m)
+                sub.assign(g0.target, elems[0])
+                if isinstance(it0, ACollection):
+                    I.path.effects.append(("loop", it0.name, elems[0]))
+                I.loop_depth += 1
+                try:
+                    sub.assign(g1.target, sub.expr(g1.iter.elts[0]))
+                    k, v = sub.expr(e.key), sub.expr(e.value)
+                finally:
+                    I.loop_depth -= 1
+                out = AMap("comp:L%d" % e.lineno)
+                I.path.effects.append(("map-store", out.base, k, v, None))
+                out.adds.append((k, v))
+                return out
         if len(e.generators) != 1:
             self.unsupported(e, "dict comprehension shape")
         g = e.generators[0]
@@ -2489,6 +2576,11 @@ class Frame(object):
             return out
         if g.ifs:
             self.unsupported(e, "dict comprehension shape")
+        if isinstance(it, AMapGen) and isinstance(g.target, (ast.Tuple, ast.List)):
+            # iterating the mapping itself gives its keys (the names of the per-letter tracks: words), not (key, value)
+            # pairs: unpacking a name into two targets fails for every name that is not two characters long
+            I.path.effects.append(("loop", "keys-of:" + it.name, None))
+            raise RaiseSig(AExc("ValueError", ["too many values to unpack (expected %d)" % len(g.target.elts)], {}))
         if isinstance(it, Term) and it.op == "items" and isinstance(it.args[0], AMapGen):
             src: AMapGen = it.args[0]
             k, v = Term("key:" + src.name), src.value
@@ -2499,6 +2591,14 @@ class Frame(object):
             if not (isinstance(kk, Term) and kk == k):
                 self.unsupported(e, "dict comprehension changes the keys")
             return AMapGen(src.name, vv)
+        if isinstance(it, Term) and it.op == "items" and len(it.args) == 1 and isinstance(it.args[0], Term) and isinstance(g.target, (ast.Tuple, ast.List)) and len(g.target.elts) == 2:
+            # the entries of an opaque mapping (a record's letter_annotations, ...) re-made one by one: opaque again; the
+            # key and value expressions are evaluated once on a generic entry (what they read and raise counts)
+            k, v = Term("key-of", it.args[0]), Term("value-of", it.args[0])
+            sub = Frame(I, self.fi, dict(self.env), module=self.m)
+            sub.assign(g.target, (k, v))
+            kk, vv = sub.expr(e.key), sub.expr(e.value)
+            return Term("mapped-items", it.args[0], _t(kk), _t(vv))
         if isinstance(it, AMapView) and it.which == "items":
             src = it.m
             out = AMap(src.base, make_value=src.make_value)
@@ -2531,6 +2631,11 @@ class Frame(object):
             return self.nested_comprehension(e)
         g = e.generators[0]
         it = self.expr(g.iter)
+        hook = I.hooks.get("iterate")
+        if hook is not None and isinstance(it, AStruct):
+            r_ = hook(self, it, g.iter)
+            if r_ is not NotImplemented:
+                it = r_
         if isinstance(it, AGenCall) and kind == "list":
             # [fragment(x) for x in <lazy generator>]: a list of records that is only ever folded with + (anything else
             # done to it is refused) is represented by the concatenation it will be folded into
@@ -2648,6 +2753,9 @@ class Frame(object):
             out.generic = True
             out.source = it.name
             out.filtered = bool(conds)
+            if conds and all(isinstance(c, bool) for c in conds) and not all(conds):
+                out.items = []  # on this path the representative element does not pass the filter: it has no image
+            I.path.effects.append(("loop", it.name, elem))
             return out
         if isinstance(it, Term):
             elem = I.new_term("elem")
@@ -2704,6 +2812,7 @@ class Frame(object):
                     return SuperProxy(a, o)
             self.unsupported(e, "super() form")
         fn = self.expr(e.func)
+        n_eff = len(I.path.effects)
         args = []
         for a in e.args:
             if isinstance(a, ast.Starred):
@@ -2726,6 +2835,10 @@ class Frame(object):
                     self.unsupported(e, "**kwargs of %r" % (v,))
             else:
                 kwargs[k.arg] = self.expr(k.value)
+        if isinstance(fn, BoundMethod) and getattr(fn, "logs", False):
+            # what was read only to be written to a log goes nowhere else: the reads made while the arguments of the
+            # logging call were evaluated do not count as reads of the computation (an exception they raise still does)
+            I.path.effects[n_eff:] = [x for x in I.path.effects[n_eff:] if x[0] not in ("getattr", "read")]
         return self.call_value(fn, args, kwargs, e)
 
     def call_value(self, fn, args, kwargs, node):
@@ -2962,6 +3075,22 @@ def _table_term(d: dict) -> Term:
     return Term("table", Term(",".join(sorted(str(k) for k in d if isinstance(k, (str, int))))))
 
 
+def _lib_class(dotted: str):
+    """the class a dotted library name denotes (for exception hierarchies of installed libraries), or None"""
+    if "." not in dotted:
+        return None
+    mod, _, name = dotted.rpartition(".")
+    try:
+        import importlib
+        import warnings
+
+        with warnings.catch_warnings():
+            warnings.simplefilter("ignore")
+            return getattr(importlib.import_module(mod), name, None)
+    except Exception:
+        return None
+
+
 def _concrete(v) -> bool:
     """a plain Python constant (possibly nested in tuples / dicts), nothing symbolic in it"""
     if isinstance(v, (str, int, bool, type(None), bytes)):
@@ -3069,6 +3198,15 @@ def _dataclass_fields(p, ci):
 
 def lib_getattr(fr: Frame, base, a: str, node):
     I = fr.I
+    if isinstance(base, AStruct) and base.kind == "logger":
+        if a in ("debug", "info", "warning", "warn", "error", "exception", "critical", "log", "setLevel", "addHandler"):
+            bm = BoundMethod("py", lambda fr2, args, kwargs, node2: None, a)
+            bm.logs = True
+            return bm
+        if a == "isEnabledFor":
+            # whether a record is emitted is configuration: both answers are possible, neither may change a result
+            return BoundMethod("py", lambda fr2, args, kwargs, node2: fr2.I.path.choose("logger-enabled"), a)
+        fr.unsupported(node, "logger attribute %s" % a)
     if isinstance(base, AFragList):
         if a in ("append", "extend"):
             def add(fr2, args, kwargs, node2):
@@ -3089,6 +3227,14 @@ def lib_getattr(fr: Frame, base, a: str, node):
             return BoundMethod("py", cb, a)
         if a == "close":
             return BoundMethod("py", lambda fr2, args, kwargs, node2: fr2.run_exit_callbacks(base, node2), a)
+        if a == "enter_context":
+            def enter(fr2, args, kwargs, node2):
+                # a library context manager (an open stream, an archive): entered now, left with the stack; what it
+                # gives is itself.  Managers of the code base would have to run around the rest of the block: not followed
+                if len(args) == 1 and isinstance(args[0], (AStruct, Term)):
+                    return args[0]
+                fr2.unsupported(node2, "ExitStack.enter_context of %r" % (args[0] if args else None,))
+            return BoundMethod("py", enter, a)
         fr.unsupported(node, "ExitStack.%s" % a)
     if isinstance(base, ANT):
         if a in base._nt_fields:
@@ -3193,6 +3339,11 @@ def lib_getattr(fr: Frame, base, a: str, node):
         if base.kind in ("FeatureLocation", "CompoundLocation", "Location") and a == "parts":
             pv = base.fields.get("parts_value")
             return pv if pv is not None else AList([base])
+        if base.kind == "Location" and a in ("strand", "ref", "ref_db"):
+            # "some location" that is a simple one on this path: these are the attributes of its only part
+            pv = base.fields.get("parts_value")
+            if isinstance(pv, AList) and not pv.generic and len(pv.items) == 1 and isinstance(pv.items[0], AStruct) and a in pv.items[0].fields:
+                return pv.items[0].fields[a]
         return Term(a, _t(base))
     if isinstance(base, AFeatList):
         if a in ("append", "extend"):
@@ -3222,6 +3373,9 @@ def lib_getattr(fr: Frame, base, a: str, node):
         # T3: the attribute is neither a member of the library class nor set on the object in this path
         kind = ("CircularRecord" if base.circular else "SeqRecord") if isinstance(base, ARec) else ("Seq" if base.kind == "Seq" else base.kind)
         raise RaiseSig(AExc("AttributeError", ["'%s' object has no attribute '%s'" % (kind, a)], {}))
+    if (base is None or isinstance(base, (bool, int))) and not isinstance(base, Aff) and not hasattr(base, a):
+        # a truth value / None / a number where an object was meant (a walrus that lost its parentheses, ...)
+        raise RaiseSig(AExc("AttributeError", ["'%s' object has no attribute '%s'" % (type(base).__name__, a)], {}))
     fr.unsupported(node, "attribute %s of %r" % (a, base))
 
 
@@ -3323,6 +3477,8 @@ def lib_call_method(fr: Frame, bm: BoundMethod, args, kwargs, node):
         if name == "search" and t.op == "search":
             return Term("sites", *[_t(a) for a in args])
         if name in ("append", "extend", "insert", "remove", "pop", "setdefault", "add", "discard", "update", "sort"):
+            if name == "update" and kwargs:
+                args = list(args) + [dict(kwargs)]  # mapping.update(key=value, ...) is update({key: value, ...})
             I.path.effects.append(("mutate", t, name, args))
             if name in ("append", "insert"):
                 I.path.termeq[("appended", repr(t))] = I.path.termeq.get(("appended", repr(t)), 0) + 1
@@ -3418,6 +3574,13 @@ def lib_call_method(fr: Frame, bm: BoundMethod, args, kwargs, node):
                         setattr(t, extra, getattr(both, extra))
                 I.path.effects.append(("mutate", t, "extend", args))
                 return None
+            if isinstance(args[0], Term) and not t.generic:
+                # extended by the elements of an opaque collection (the values left in a map): some number of them
+                t.generic_from = len(t.items)
+                t.items.append(Term("each", args[0]))
+                t.generic = True
+                I.path.effects.append(("mutate", t, "extend", args))
+                return None
         if name in ("index", "find", "count"):
             hook = I.hooks.get("list_method")
             if hook is not None:
@@ -3502,6 +3665,22 @@ def map_getitem(fr: Frame, m: AMap, key):
 
 def map_method(fr: Frame, m, name, args, kwargs, node):
     I = fr.I
+    if isinstance(m, AMap) and name in ("__len__", "__getitem__", "__contains__", "__iter__", "__setitem__") and not kwargs:
+        # the operators spelled as method calls
+        if name == "__len__" and not args:
+            return lib_call(fr, "builtins.len", [m], {}, node)
+        if name == "__getitem__" and len(args) == 1:
+            return map_getitem(fr, m, args[0])
+        if name == "__contains__" and len(args) == 1:
+            res = I.contains(m, args[0])
+            return res
+        if name == "__iter__" and not args:
+            return m
+        if name == "__setitem__" and len(args) == 2:
+            key = I.key_of(args[0], node)
+            I.path.effects.append(("map-store", m.base, key, args[1], m.known.get(repr(key))))
+            m.adds.append((key, args[1]))
+            return None
     given = args[0] if args else None
     if name in ("setdefault", "get", "pop") and args:
         args = [I.key_of(args[0], node)] + list(args[1:])
@@ -3554,6 +3733,18 @@ def map_method(fr: Frame, m, name, args, kwargs, node):
         if len(args) > 1:
             return args[1]
         raise RaiseSig(AExc("KeyError", [given], {}))
+    if name == "update" and len(args) == 1 and not kwargs and isinstance(args[0], AList):
+        # update(pairs): one store per pair, whatever is there already (a pair that only exists because its key was found
+        # absent a moment ago -- a filtered generator -- is a store under a key known to be absent)
+        for pair in args[0].items:
+            if not (isinstance(pair, tuple) and len(pair) == 2):
+                fr.unsupported(node, "dict.update with something other than (key, value) pairs")
+            k, v = I.key_of(pair[0], node), pair[1]
+            I.path.effects.append(("map-store", m.base, k, v, m.known.get(repr(k))))
+            m.adds.append((k, v))
+        if getattr(args[0], "_one_shot", None):
+            args[0]._consumed = True
+        return None
     if name == "values":
         return Term("values", Term(repr(m)))
     if name == "keys":
@@ -3597,6 +3788,14 @@ def lib_call(fr: Frame, dotted: str, args, kwargs, node):
             owner, raw = I.p.class_attr_def(v.cls, "__len__")
             if isinstance(raw, FuncInfo):
                 return I.call_function(raw, [v], {}, node)
+        if isinstance(v, ACollection):
+            t = Aff.sym("len:coll:%s" % v.name)
+            I.path.cons.add(t)
+            return t
+        if isinstance(v, AFeatList):
+            t = Aff.sym("len:features(%r)" % (v.rec.ident,))
+            I.path.cons.add(t)
+            return t
         if isinstance(v, AStruct) and v.kind == "cut-sites":
             t = Aff.sym("len(%r)" % (v.fields["frags"],))
             I.path.cons.add(t - 1)
@@ -3761,6 +3960,16 @@ def lib_call(fr: Frame, dotted: str, args, kwargs, node):
             return divmod(a.c, b.c)
         q = I.floordiv(a, b)
         return (q, a - b.scale(q))
+    if dotted == "builtins.sum" and len(args) == 1 and isinstance(args[0], AList) and args[0].generic and args[0].items \
+            and all(isinstance(x, int) and not isinstance(x, bool) and x == 1 for x in args[0].items) and not args[0].generic_from:
+        # sum(1 for _ in <one image per element of a collection>): the number of elements
+        src = getattr(args[0], "source", None) or args[0].uid
+        t = Aff.sym("count(%s)" % src)
+        I.path.cons.add(t)
+        if getattr(args[0], "filtered", False):
+            t = Aff.sym("count-filtered(%s)" % src)
+            I.path.cons.add(t)
+        return t
     if dotted == "builtins.sum" and len(args) == 1 and isinstance(args[0], Term) and args[0].op == "map" and repr(args[0].args[1]) == "1":
         # sum(1 for _ in xs): a count
         t = Aff.sym("count(%r)" % (args[0].args[0],))
@@ -3859,11 +4068,26 @@ def lib_call(fr: Frame, dotted: str, args, kwargs, node):
             return str.maketrans(*args)
         except (ValueError, TypeError) as exc:
             raise RaiseSig(AExc(type(exc).__name__, [str(exc)], {}))
+    if dotted == "builtins.issubclass" and len(args) == 2 and isinstance(args[0], ClassInfo):
+        others = args[1] if isinstance(args[1], tuple) else (args[1],)
+        if all(isinstance(x, ClassInfo) for x in others):
+            return any(I.p.is_subclass(args[0], x) for x in others)
+    if dotted == "logging.getLogger":
+        return AStruct("logger")  # what is logged does not reach any result (the arguments were evaluated already)
+    if dotted.startswith("logging.") and short in ("debug", "info", "warning", "error", "exception", "critical", "log"):
+        return None
     if dotted == "builtins.dict":
         if len(args) == 1 and not kwargs and isinstance(args[0], Term) and args[0].op == "items" and args[0].args and isinstance(args[0].args[0], AMapGen):
             return AMapGen(args[0].args[0].name, args[0].args[0].value)
         if not args and not kwargs:
             return {}
+        if len(args) == 1 and not kwargs and isinstance(args[0], AMap):
+            # a shallow copy of a symbolic table: the same entries in a new object
+            src = args[0]
+            out = AMap("copy-of:" + src.base, adds=list(src.adds), removes=list(src.removes), make_value=src.make_value)
+            out.values_cache, out.known = src.values_cache, dict(src.known)
+            I.path.effects.append(("map-copy", src.base))
+            return out
         if not args and kwargs:
             return dict(kwargs)  # dict(a=x, b=y)
         if len(args) == 1 and isinstance(args[0], dict):
@@ -3923,6 +4147,9 @@ def lib_call(fr: Frame, dotted: str, args, kwargs, node):
         if args and isinstance(args[0], ASeq):
             return ASeq("Seq", args[0].pieces, args[0].upper)
     if dotted == "Bio.SeqRecord.SeqRecord":
+        if not args and "seq" in kwargs:
+            kwargs = dict(kwargs)
+            args = [kwargs.pop("seq")]  # SeqRecord(seq=..., id=...)
         if args and isinstance(args[0], ARec):
             # Bio 1.88: "seq argument should be a Seq object"
             raise RaiseSig(AExc("TypeError", ["seq argument should be a Seq object"], {}))
@@ -3933,7 +4160,8 @@ def lib_call(fr: Frame, dotted: str, args, kwargs, node):
                 out.attrs[nme] = v
             out.attrs.update(kwargs)
             return out
-    if dotted == "Bio.SeqFeature.FeatureLocation":
+    if dotted in ("Bio.SeqFeature.FeatureLocation", "Bio.SeqFeature.SimpleLocation"):
+        # (SimpleLocation is the current name of the same class, T3)
         names = ["start", "end", "strand", "ref", "ref_db"]
         f = dict(zip(names, args))
         f.update(kwargs)
@@ -3979,6 +4207,9 @@ def lib_call(fr: Frame, dotted: str, args, kwargs, node):
 
 
 TYPE_TAGS = {
+    "Bio.SeqFeature.CompoundLocation": "CompoundLocation",
+    "Bio.SeqFeature.SimpleLocation": "FeatureLocation",
+    "Bio.SeqFeature.FeatureLocation": "FeatureLocation",
     "Bio.Seq.Seq": "Seq",
     "Bio.SeqRecord.SeqRecord": "SeqRecord",
     "six.string_types": "str",
@@ -4213,6 +4444,10 @@ def lib_isinstance(fr: Frame, v, t, node):
         tags = {type(v).__name__}
     elif isinstance(v, AList):
         tags = {"list"}
+    elif isinstance(v, AStruct) and v.kind == "Location":
+        # "some location": a join when it has several parts, else a simple one
+        pv = v.fields.get("parts_value")
+        tags = {"CompoundLocation"} if (isinstance(pv, AList) and (pv.generic or len(pv.items) > 1)) else {"FeatureLocation"}
     elif isinstance(v, AStruct):
         tags = {v.kind}
     elif isinstance(v, (Aff,)):
@@ -4221,6 +4456,8 @@ def lib_isinstance(fr: Frame, v, t, node):
         tags = {"bool", "int"}
     elif v is None:
         tags = {"NoneType"}
+    elif isinstance(v, (ClassInfo, RecType)):
+        tags = {"type"}  # a class object
     elif isinstance(v, Term):
         # an opaque value: one decision per (value, type test) and path
         key = ("isinstance", repr(v), repr(ts))
